@@ -52,11 +52,33 @@ type Scenario struct {
 	F    Feat   `json:"f"`
 }
 
-// Event is one line of the trace judged by Trace_Builder.tla.
+// Event is one line of the trace judged by Trace_Builder.tla; it is written as the JSON array
+// [id, [[opcode, args...]...], stream, off] (arrays of integers parse ten times faster in TLC than objects).
 type Event struct {
-	ID   int     `json:"id"`
-	Hist []Call  `json:"hist"`
-	Sm   [][]int `json:"sm"`
+	ID   int
+	Hist []Call
+	Sm   [][]int
+	Off  int // 1: a decoded value that must be a lattice value is not (Sm holds the rounded values)
+}
+
+var opCodes = map[string]int{"MoveTo": 1, "LineTo": 2, "QuadTo": 3, "CubeTo": 4, "ArcTo": 5, "Arc": 6, "Close": 7, "Append": 8, "Join": 9,
+	"Shape:Line": 101, "Shape:Rectangle": 102, "Shape:BeveledRectangle": 103, "Shape:RoundedRectangle": 104, "Shape:Circle": 105, "Shape:Ellipse": 106,
+	"Shape:Grid": 107, "Shape:Arc": 108, "Shape:EllipticalArc": 109, "Shape:Triangle": 110, "Shape:RegularPolygon": 111, "Shape:RegularStarPolygon": 112, "Shape:StarPolygon": 113}
+
+func (e Event) MarshalJSON() ([]byte, error) {
+	h := make([][]int, len(e.Hist))
+	for i, c := range e.Hist {
+		k, ok := opCodes[c.Op]
+		if !ok {
+			return nil, fmt.Errorf("no opcode for %q", c.Op)
+		}
+		h[i] = append([]int{k}, c.A...)
+	}
+	sm := e.Sm
+	if sm == nil {
+		sm = [][]int{}
+	}
+	return json.Marshal([]any{e.ID, h, sm, e.Off})
 }
 
 type Verdict struct {
@@ -80,10 +102,10 @@ func setOf(l []string) map[string]bool {
 // Exec replays one scenario on the real code. It returns the lattice stream (nil if not decodable) and the
 // mismatches that need no expectation from the spec beyond the header (decodability, lattice values, totality,
 // side-effect freedom). derive=false skips the derived operations.
-func Exec(s *Scenario, newPath map[string]bool, derive bool, info func(string)) (stream [][]int, data []float64, ms []core.Mismatch) {
+func Exec(s *Scenario, newPath map[string]bool, derive bool, info func(string)) (stream [][]int, off string, data []float64, ms []core.Mismatch) {
 	e, ok := EmbByName(s.Emb)
 	if !ok {
-		return nil, nil, []core.Mismatch{{Signature: "machinery", Detail: "unknown embedding " + s.Emb}}
+		return nil, "", nil, []core.Mismatch{{Signature: "machinery", Detail: "unknown embedding " + s.Emb}}
 	}
 	okb, msg := latgeo.Try(func() {
 		p, err := Build(s.Hist, e)
@@ -94,26 +116,26 @@ func Exec(s *Scenario, newPath map[string]bool, derive bool, info func(string)) 
 		data = cloneF(p.Data())
 	})
 	if !okb {
-		return nil, nil, []core.Mismatch{{Signature: "panic-builder:" + latgeo.PanicClass(msg), Detail: fmt.Sprintf("builder call panics: %v", msg)}}
+		return nil, "", nil, []core.Mismatch{{Signature: "panic-builder:" + latgeo.PanicClass(msg), Detail: fmt.Sprintf("builder call panics: %v", msg)}}
 	}
 	if len(ms) > 0 {
-		return nil, nil, ms
+		return nil, "", nil, ms
 	}
 	stream, off, err := Project(data, e)
 	if err != nil {
-		return nil, data, []core.Mismatch{{Signature: "not-decodable", Detail: fmt.Sprintf("Data() = %v: %v", data, err)}}
-	}
-	if off != "" {
-		ms = append(ms, core.Mismatch{Signature: "offgrid" + offTag(s.F), Detail: off + fmt.Sprintf(" (Data() = %v)", data)})
+		return nil, "", data, []core.Mismatch{{Signature: "not-decodable", Detail: fmt.Sprintf("Data() = %v: %v", data, err)}}
 	}
 	if derive {
 		ms = append(ms, Derive(data, e, s.F, newPath, info)...)
 	}
-	return stream, data, ms
+	return stream, off, data, ms
 }
 
-func offTag(f Feat) string {
-	if f.Arcs {
+func offTag(s *Scenario) string {
+	if s.Kind == "shape" && len(s.Hist) == 1 {
+		return ":" + s.Hist[0].Op
+	}
+	if s.F.Arcs {
 		return ":arcs"
 	}
 	return ""
@@ -132,13 +154,13 @@ func judge(c *core.Ctx, evs []Event) (map[int]Verdict, bool) {
 	var buf bytes.Buffer
 	enc := json.NewEncoder(&buf)
 	for _, e := range evs {
-		if e.Hist == nil {
-			e.Hist = []Call{}
+		if err := enc.Encode(e); err != nil {
+			c.Broken("cannot encode event: " + err.Error())
+			return out, false
 		}
-		if e.Sm == nil {
-			e.Sm = [][]int{}
-		}
-		enc.Encode(e)
+	}
+	if f := os.Getenv("VERIF_C10_KEEPTRACE"); f != "" {
+		os.WriteFile(f, buf.Bytes(), 0o644)
 	}
 	nch := 48
 	if len(evs) < 200 {
@@ -164,8 +186,12 @@ func judge(c *core.Ctx, evs []Event) (map[int]Verdict, bool) {
 }
 
 // verdictMismatches names the deviations of a judged event.
-func verdictMismatches(v Verdict, s *Scenario, sm [][]int) []core.Mismatch {
+func verdictMismatches(v Verdict, s *Scenario, ev Event, offDetail string) []core.Mismatch {
 	var ms []core.Mismatch
+	sm := ev.Sm
+	if v.Geom == "offgrid" {
+		return append(ms, core.Mismatch{Signature: "offgrid" + offTag(s), Detail: fmt.Sprintf("history %s (embedding %s): %s; decoded stream (rounded) %v", histString(s.Hist), s.Emb, offDetail, sm)})
+	}
 	sort.Strings(v.WF)
 	for _, w := range v.WF {
 		sig := "wf-" + w
@@ -231,25 +257,34 @@ func (Driver) Replay(c *core.Ctx, raw json.RawMessage) []core.Mismatch {
 	}
 	var stream [][]int
 	var ms []core.Mismatch
+	var off string
 	if s.Kind == "shape" {
 		var data []float64
-		stream, data, ms = shapeStream(&s)
+		stream, off, data, ms = shapeStream(&s)
 		if stream != nil {
 			e, _ := shapeUnit(s.Emb)
 			ms = append(ms, Derive(data, e, s.F, setOf(defaultNewPath), nil)...)
 		}
 	} else {
-		stream, _, ms = Exec(&s, setOf(defaultNewPath), true, nil)
+		stream, off, _, ms = Exec(&s, setOf(defaultNewPath), true, nil)
 	}
 	if stream != nil {
-		vs, ok := judge(c, []Event{{ID: 1, Hist: s.Hist, Sm: stream}})
+		ev := Event{ID: 1, Hist: s.Hist, Sm: stream, Off: b2i(off != "")}
+		vs, ok := judge(c, []Event{ev})
 		if ok {
 			if v, bad := vs[1]; bad {
-				ms = append(ms, verdictMismatches(v, &s, stream)...)
+				ms = append(ms, verdictMismatches(v, &s, ev, off)...)
 			}
 		}
 	}
 	return ms
+}
+
+func b2i(b bool) int {
+	if b {
+		return 1
+	}
+	return 0
 }
 
 func genCfg(maxLen, emitFrom int, profile string, mc bool) string {
@@ -294,6 +329,7 @@ type run struct {
 	nHist, nExec, nDerived, nontrivial int64
 	feat     map[string]int64
 	triage   map[string]int64
+	offDetail map[int]string
 	info     map[string]int64
 }
 
@@ -386,9 +422,12 @@ func (r *run) handle(p []byte, extra int) {
 	for i, en := range embs {
 		s := Scenario{Kind: "hist", Hist: l.Hist, Emb: en, F: l.F}
 		// derived operations: once per distinct Data() under the identity, and under the first extra embedding
-		stream, data, ms := Exec(&s, r.newPath, false, nil)
+		stream, off, data, ms := Exec(&s, r.newPath, false, nil)
 		atomic.AddInt64(&r.nExec, 1)
-		if stream != nil && (i == 0 || (i == 1 && (r.c.Thorough() || h%8 == 0))) {
+		// derived operations: once per distinct Data(); quick tier: short histories and a quarter of the others under
+		// the identity, an eighth of those also under the first extra embedding
+		want := i == 0 && (r.c.Thorough() || len(l.Hist) <= 2 || h%4 == 0) || i == 1 && (r.c.Thorough() || h%32 == 0)
+		if stream != nil && want {
 			if _, dup := r.derived.LoadOrStore(bitsKey(en, data), true); !dup {
 				e, _ := EmbByName(en)
 				ms = append(ms, Derive(data, e, l.F, r.newPath, r.note)...)
@@ -404,8 +443,11 @@ func (r *run) handle(p []byte, extra int) {
 		if _, dup := r.evKey[key]; !dup {
 			id := len(r.events) + 1
 			r.evKey[key] = id
-			r.events = append(r.events, Event{ID: id, Hist: l.Hist, Sm: stream})
+			r.events = append(r.events, Event{ID: id, Hist: l.Hist, Sm: stream, Off: b2i(off != "")})
 			r.evScen = append(r.evScen, s)
+			if off != "" {
+				r.offDetail[id] = off
+			}
 		}
 		r.mu.Unlock()
 	}
@@ -447,7 +489,7 @@ func (r *run) judgeAll() {
 		sort.Ints(ids)
 		for _, id := range ids {
 			s := r.evScen[lo+id-1]
-			r.report(s, verdictMismatches(vs[id], &s, r.events[lo+id-1].Sm))
+			r.report(s, verdictMismatches(vs[id], &s, r.events[lo+id-1], r.offDetail[lo+id]))
 		}
 	}
 }
@@ -461,12 +503,16 @@ func (d Driver) Run(c *core.Ctx) error {
 		"methods counted as 'documented as returning a new path': NewPathOps in spec/Builder.tla (Transform and Gridsnap are documented in-place and exempt)",
 		"Triangulate (documented WIP), Tile and the rasterizer adapters are not part of the totality claim",
 	}
-	r := &run{c: c, evKey: map[string]int{}, feat: map[string]int64{}, triage: map[string]int64{}, info: map[string]int64{}, newPath: setOf(defaultNewPath)}
+	r := &run{c: c, evKey: map[string]int{}, feat: map[string]int64{}, triage: map[string]int64{}, offDetail: map[int]string{}, info: map[string]int64{}, newPath: setOf(defaultNewPath)}
 
 	// 1. model level: the machine's invariants, the normal form is a normal form, the judge accepts the spec's own
 	//    rendering of every meaning; prints the header (NewPathOps)
 	mcDepth := c.Pick(3, 4)
-	for _, prof := range []string{"lines", "curves", "arcs", "joins"} {
+	profs := []string{"lines", "joins"}
+	if c.Thorough() {
+		profs = []string{"lines", "curves", "arcs", "joins"}
+	}
+	for _, prof := range profs {
 		res := c.TLC(tlc.Opts{Module: "Builder", Config: genCfg(mcDepth, 0, prof, true), Coverage: c.Thorough() && prof == "joins"}, true)
 		for _, l := range res.Lines {
 			var h Line
@@ -478,12 +524,16 @@ func (d Driver) Run(c *core.Ctx) error {
 
 	// 2. spec -> code
 	extra := c.Pick(1, 3)
+	if os.Getenv("VERIF_C10_ONLY") == "" {
 	r.gen(tlc.Opts{Module: "Builder", Config: genCfg(c.Pick(4, 5), 1, "lines", false)}, extra)
 	r.gen(tlc.Opts{Module: "Builder", Config: genCfg(c.Pick(3, 4), 1, "curves", false)}, extra)
 	r.gen(tlc.Opts{Module: "Builder", Config: genCfg(c.Pick(3, 4), 1, "arcs", false)}, extra)
+	}
 	r.gen(tlc.Opts{Module: "Builder", Config: genCfg(c.Pick(3, 4), 1, "joins", false)}, extra)
 	depth := c.Pick(7, 8)
-	r.gen(tlc.Opts{Module: "Builder", Config: genCfg(depth, 2, "mix", false), Simulate: fmt.Sprintf("num=%d", c.Pick(300, 4000)), Depth: depth + 1, Seed: c.Seed, Workers: 8}, extra)
+	if os.Getenv("VERIF_C10_ONLY") == "" {
+	r.gen(tlc.Opts{Module: "Builder", Config: genCfg(depth, 2, "mix", false), Simulate: fmt.Sprintf("num=%d", c.Pick(20, 1500)), Depth: depth + 1, Seed: c.Seed, Workers: 8}, extra)
+	}
 	r.shapes()
 	c.Count(r.nExec, r.nontrivial, 0)
 
